@@ -70,6 +70,13 @@ def drive(tier):
     for s in ["0", "O", "I", "l", "1O", "abc0", " 1", "1 ", "é", "+", "/", "11I", "z" * 40 + "0"] + wide + ["1" + w for w in wide[:20]] + [w + "2" for w in wide[:20]]:
         dec(s)
         check(s)
+    # white space, line ends and control characters around and inside otherwise good strings
+    WS = ["\n", "\r", "\r\n", "\t", " ", "\x00", "\x0b", "\x0c", "\x1c", "\x1f", "\x85", "\xa0", "\u2028", "\u3000", "\ufeff"]
+    for base in ("", "1", "2g", "z", "11", "StV1DL6CwTryKyV", "1BvBMSEYstWetqTFn5Au4m4GFg7xJaNVN2"):
+        for w in WS:
+            for s in (base + w, w + base, w + base + w, base + w + w, base[:1] + w + base[1:]):
+                dec(s)
+                check(s)
     for kz in list(range(1, 45)):
         dec("z" * kz)
         dec("z" * kz + "".join(r.choice(ALPHA) for _ in range(r.randrange(0, 6))))
